@@ -13,7 +13,7 @@ import os
 import sys
 import hashlib
 
-REPO = os.environ.get("GAFTOOLS_REPO", "/repo")
+REPO = os.environ.get("GAFTOOLS_REPO") or "/repo"
 HERE = os.path.dirname(os.path.abspath(__file__))
 GEN = os.path.join(HERE, "..", "lean", "Gaftools", "Gen")
 
